@@ -674,6 +674,9 @@ func (c *EvalCtx) call(n *Node) Val {
 		if cs, ok := t.concrete(); ok {
 			return mkBool(strings.HasPrefix(cs, p))
 		}
+		if len(t.Frags) > 0 && t.Frags[0].Kind == FLit && len(t.Frags[0].Lit) >= len(p) {
+			return mkBool(strings.HasPrefix(t.Frags[0].Lit, p)) // decided by the leading literal
+		}
 		if !singleAtom(t) {
 			specErr(n, "has_prefix(atom, literal)")
 		}
@@ -810,6 +813,20 @@ func (c *EvalCtx) call(n *Node) Val {
 		cnt := int64(0)
 		for k := 0; k < sl.Len_; k++ {
 			if el, ok := c.st.load(sl.Arr.sub(sl.Lo + k)).(Iface); ok && el.Dyn != nil && types.TypeString(el.Dyn, func(p *types.Package) string { return p.Name() }) == want {
+				cnt++
+			}
+		}
+		return mkInt(cnt)
+	case "count_values":
+		// count_values(list, "string"): how many elements of a []interface{} have that dynamic Go type
+		sl, ok := arg(0).(SliceV)
+		if !ok {
+			return mkInt(0)
+		}
+		want, _ := arg(1).(Text).concrete()
+		cnt := int64(0)
+		for k := 0; k < sl.Len_; k++ {
+			if el, ok := c.st.load(sl.Arr.sub(sl.Lo + k)).(Iface); ok && el.Dyn != nil && el.Dyn.String() == want {
 				cnt++
 			}
 		}
